@@ -126,3 +126,32 @@ Proof.
   split; [lia|]. split; [reflexivity|]. split; [cbv; lra|]. split; [reflexivity|]. split; [cbv; lra|].
   split; [reflexivity|]. split; vm_compute; reflexivity.
 Qed.
+
+(** ** SincFixedOut as constructed (chunk_size = max_chunk_size): the same statement *)
+From Rubato.Gen Require SincGen.
+
+Theorem so_fresh_next_le_max_B64 (st : @SincGen.SincFixedOut CB) :
+  let orig := SincGen.SincFixedOut_resample_ratio_original st in
+  let maxrel := SincGen.SincFixedOut_max_relative_ratio st in
+  let chunk := SincGen.SincFixedOut_max_chunk_size st in
+  let L := SincGen.SincFixedOut_interpolator_len st in
+  (1 <= chunk < 2 ^ 53)%Z ->
+  is_finite orig = true -> 0 < B2R orig ->
+  is_finite maxrel = true -> 1 <= B2R maxrel ->
+  SincGen.SincFixedOut_needed_input_size st = @SincGen.so_new_needed_input_size CB chunk L orig ->
+  (@SincGen.so_input_frames_next CB st <= @SincGen.so_input_frames_max CB st)%Z.
+Proof.
+  intros orig maxrel chunk L Hc Fo Po Fm Hm Hn.
+  unfold SincGen.so_input_frames_next, SincGen.so_input_frames_max. rewrite Hn.
+  unfold SincGen.so_new_needed_input_size.
+  cbn [c_to_usize cceil cmul cdiv c_of_Z CB].
+  fold orig maxrel chunk L.
+  set (c := b_of_Z 53 1024 chunk).
+  destruct (b64_of_Z_exact chunk) as [Ec Fc]; [lia|]. fold c in Ec, Fc.
+  assert (Pc : 0 < B2R c) by (rewrite Ec; apply IZR_lt; lia).
+  assert (Nq : nn (Bdiv mode_NE c orig)) by (apply div_nn; assumption).
+  assert (H : (b_to_int 53 1024 0 usize_max (Bnearbyint mode_UP (Bdiv mode_NE c orig)) <=
+               b_to_int 53 1024 0 usize_max (Bnearbyint mode_UP (Bmult mode_NE (Bdiv mode_NE c orig) maxrel)))%Z).
+  { apply to_usize_mono. apply ceil_mono. apply mult_ge_one; assumption. }
+  lia.
+Qed.
